@@ -467,12 +467,23 @@ class Program:
     def callee_fns(self, call):
         """workspace functions a direct call may enter (resolved instance, declared fn, or
         all workspace impls of an unresolved trait method)"""
-        out = []
-        for n in (call.res, call.decl):
-            if n and n in self.fns:
-                out.append(self.fns[n])
-                return out
-        return out
+        if call.res:
+            f = self.fns.get(call.res)
+            return [f] if f is not None else []
+        # unresolved: a trait method on a generic receiver dispatches to an implementation we cannot
+        # see (user callback) — never to the trait's default body
+        if call.decl and call.decl in self.fns and call.decl not in self.traits_methods():
+            return [self.fns[call.decl]]
+        return []
+
+    def traits_methods(self):
+        if not hasattr(self, '_tm'):
+            tm = set()
+            for t in self.traits.values():
+                for it in t['items']:
+                    tm.add(it['path'])
+            self._tm = tm
+        return self._tm
 
     def fn_item_args(self, call):
         """workspace fns / closures passed as arguments (fn items or closure aggregates)"""
